@@ -1,5 +1,6 @@
 """C09 - datagrams follow the documented frame layout; nonces never repeat (DESIGN.md section 5, C09)."""
 import vcheck as V
+import udp_common as U
 
 META = {
     'engine': 'frame',
@@ -24,6 +25,7 @@ def run(ctx):
                             "independent Go decoder's reading; pp_step regenerates every emission sequence byte for byte; "
                             "fec_encode/encode_oob = the real fecEncoder)")
     V.merge_report(ctx, rep, summ)
+    U.run_parts(ctx, ["tx"])
     if ctx.broken and not ctx.violations and ctx.quick():
         # search: the same monitors over the full cipher x FEC x MTU product
         rep2, _ = V.harness_report(ctx, "^TestVerifC09$", "C09.report.json", env={"VERIF_TIER": "thorough"}, files=FILES)
@@ -46,5 +48,6 @@ def run(ctx):
         "(c09_core_output_parses); here it is observed on every captured datagram",
         "README.md's header diagram omits the len field; the property text (24-byte header, exactly len bytes) is the "
         "specification (boundary B6)",
-        "tx_linux.go's WriteBatch path (real UDP sockets) is not exercised; the in-memory conn goes through WriteTo",
+        "tx_linux.go's WriteBatch path is exercised by the udp engine over real loopback sockets (incl. partial batch writes), "
+        "judged by wire oracles only; the byte-exact regeneration in the model uses the in-memory conn (WriteTo path)",
     ]
